@@ -13,8 +13,8 @@ from __future__ import annotations
 import json
 import os
 
-PKG_MODULES = {"p": "p/__init__.py", "p.a": "p/a.py", "p.b": "p/b.py", "p.s": "p/s/__init__.py", "p.s.c": "p/s/c.py", "q": "q/__init__.py", "r": "r/__init__.py"}
-IS_PKG = {"p", "p.s", "q", "r"}
+PKG_MODULES = {"p": "p/__init__.py", "p.a": "p/a.py", "p.b": "p/b.py", "p.s": "p/s/__init__.py", "p.s.c": "p/s/c.py", "p.s.t": "p/s/t/__init__.py", "q": "q/__init__.py", "r": "r/__init__.py"}
+IS_PKG = {"p", "p.s", "p.s.t", "q", "r"}
 NIL = {"m": "", "n": "", "l": 0}
 
 
